@@ -30,11 +30,22 @@ func main() {
 		switch os.Args[2] {
 		case "c02":
 			genC02(g, n, os.Stdout)
+		case "c01":
+			stream := "tt"
+			if len(os.Args) > 5 {
+				stream = os.Args[5]
+			}
+			genC01(g, n, os.Stdout, stream)
 		default:
 			usage()
 		}
 	case "impl":
 		runImpl(os.Stdin, os.Stdout)
+	case "extract":
+		if len(os.Args) < 5 {
+			usage()
+		}
+		runExtract(os.Args[2], os.Args[3], os.Args[4])
 	default:
 		usage()
 	}
